@@ -50,6 +50,10 @@ def teval(e: ast.AST, env: Dict[str, str]) -> bool:
         return any(teval(v, env) for v in e.values)
     if isinstance(e, ast.UnaryOp) and isinstance(e.op, ast.Not):
         return not teval(e.operand, env)
+    if isinstance(e, ast.IfExp):
+        return teval(e.body, env) if teval(e.test, env) else teval(e.orelse, env)
+    if isinstance(e, ast.Constant) and isinstance(e.value, bool):
+        return e.value
     if isinstance(e, ast.Call) and isinstance(e.func, ast.Name) and e.func.id == "isinstance" and len(e.args) == 2:
         v = norm(e.args[0])
         if v not in env:
@@ -297,7 +301,7 @@ def _action(body: List[ast.stmt]) -> str:
     return "other"
 
 
-@rule("C05.R1", ["C05", "C04"], min_instances=3, design="3.5")
+@rule("C05.R1", ["C05", "C04", "C01"], min_instances=3, design="3.5")
 def prefix_table_agreement(ctx):
     """Evaluating the reader's discriminator chain on the writer's four prefix constants classifies each to its own kind and strips exactly its own length; tags are written before fields."""
     pcs = prefix_consts(ctx)
@@ -308,17 +312,18 @@ def prefix_table_agreement(ctx):
     loops = [n for n in de.node.body if isinstance(n, ast.While)]
     if len(loops) != 2:
         raise AnalysisError("C05.R1", f"expected a tag loop and a field loop, found {len(loops)} while-loops")
-    idx = None
-    t = loops[0].test
-    if isinstance(t, ast.Compare) and isinstance(t.left, ast.Name):
-        idx = t.left.id
+    idxs = []
+    for lp_ in loops:
+        t = lp_.test
+        idxs.append(t.left.id if isinstance(t, ast.Compare) and isinstance(t.left, ast.Name) else None)
+    idx = idxs[0]
     try:
-        tag_chain = _chain(loops[0], row, idx)
-        field_chain = _chain(loops[1], row, idx)
+        tag_chain = _chain(loops[0], row, idxs[0])
+        field_chain = _chain(loops[1], row, idxs[1])
     except Unknown as ex:
         # not an if/elif chain on prefix characters: the abstract interpreter of C05.R5 decides the
         # classification instead (it interprets whatever the decoder does)
-        yield Ob("C05.R1", ["C05", "C04"], "Point | prefix discriminator chain", True,
+        yield Ob("C05.R1", ["C05", "C04", "C01"], "Point | prefix discriminator chain", True,
                  f"decoder does not use a character-test chain ({ex}); classification is decided by C05.R5",
                  de.loc(), nontrivial=False)
         tag_chain = field_chain = None
@@ -349,7 +354,7 @@ def prefix_table_agreement(ctx):
             r2 = classify(field_chain, val)
             if r2 != f"slice:{name}":
                 bad.append(f"field loop does `{r2}` for a key starting with {val!r}, expected strip len({name})")
-        yield Ob("C05.R1", ["C05", "C04"], f"Point | prefix {name}={val!r} round trip", not bad,
+        yield Ob("C05.R1", ["C05", "C04", "C01"], f"Point | prefix {name}={val!r} round trip", not bad,
                  "; ".join(bad) if bad else f"classified as {kind} and stripped by its own length", de.loc())
     # writer: tags before fields, prefix + key, compact flag selects the compact pair
     ser = ctx.prog.func("Point._serialize_to_list", "C05.R1")
@@ -375,28 +380,40 @@ def prefix_table_agreement(ctx):
                 and norm(gens[0].elt.elts[0]) in (f"f'{{{kind}_key_prefix}}{{k}}'", f"{kind}_key_prefix + k")
                 and norm(gens[0].generators[0].iter) == f"self._{kind}s.items()"):
             bad.append(f"{kind} pairs are not (prefix + key, encoded value) over self._{kind}s.items()")
-    yield Ob("C05.R1", ["C05", "C04"], f"{ser.qual} | row layout", not bad,
+    yield Ob("C05.R1", ["C05", "C04", "C01"], f"{ser.qual} | row layout", not bad,
              "; ".join(bad) if bad else "(time, measurement, *tag pairs, *field pairs) with the selected prefix pair",
              ser.loc())
     # reader consumes pairs (key at i, value at i + 1, step 2) and starts after time, measurement
     bad = []
-    for lp in loops:
-        incs = [n for n in walk_local(lp) if isinstance(n, ast.AugAssign) and norm(n.target) == idx]
+    for lp, ix in zip(loops, idxs):
+        incs = [n for n in walk_local(lp) if isinstance(n, ast.AugAssign) and norm(n.target) == ix]
         if not incs or any(norm(n.value) != "2" for n in incs):
             bad.append("a loop does not advance by 2")
-        if not any(f"{row}[{idx} + 1]" in norm(n) for n in walk_local(lp) if isinstance(n, ast.Assign)):
+        if not any(f"{row}[{ix} + 1]" in norm(n) for n in walk_local(lp) if isinstance(n, ast.Assign)):
             bad.append("a loop does not read the value next to the key")
     starts = [norm(v) for v in assignments_to(de, idx)] if idx else []
     if "2" not in starts:
         bad.append(f"key/value pairs start at {starts}, expected index 2")
+    if idxs[1] != idxs[0] and idxs[1] is not None:
+        # the field loop's cursor must be a plain copy of the tag loop's final cursor
+        cur, hops = idxs[1], 0
+        while cur != idxs[0] and hops < 5:
+            vals = [v for v in assignments_to(de, cur) if not isinstance(v, ast.AugAssign)]
+            srcs = {v.id for v in vals if isinstance(v, ast.Name)}
+            if len(vals) != 1 or len(srcs) != 1:
+                break
+            cur = srcs.pop()
+            hops += 1
+        if cur != idxs[0]:
+            bad.append(f"the field loop starts at `{idxs[1]}`, which is not where the tag loop stopped")
     head = {norm(n.targets[0]): norm(n.value) for n in walk_local(de.node) if isinstance(n, ast.Assign)}
     if f"{row}[1]" not in head.values():
         bad.append("measurement is not read from column 1")
-    yield Ob("C05.R1", ["C05", "C04"], f"{de.qual} | pair layout", not bad,
+    yield Ob("C05.R1", ["C05", "C04", "C01"], f"{de.qual} | pair layout", not bad,
              "; ".join(bad) if bad else "pairs from column 2, key at i, value at i + 1, step 2", de.loc())
 
 
-@rule("C05.R2", ["C05"], min_instances=2, design="3.5")
+@rule("C05.R2", ["C05", "C04"], min_instances=2, design="3.5")
 def in_band_sentinels(ctx):
     """An encoder `SENTINEL if v is None else g(v)` is injective only if SENTINEL is outside g's range (or rejected by the validator / escaped by the decoder)."""
     ser = ctx.prog.func("Point._serialize_to_list", "C05.R2")
@@ -415,13 +432,13 @@ def in_band_sentinels(ctx):
             slot = "field value" if "float(" in t or "int(" in t else ("tag value" if t.startswith("str(") else "other")
             in_range = t.startswith("str(") and "float(" not in t and "int(" not in t
             ok = not in_range or rejects
-            yield Ob("C05.R2", ["C05"], f"{ser.qual} | {slot} encoder | {norm(n, 70)}", ok,
+            yield Ob("C05.R2", ["C05", "C04"], f"{ser.qual} | {slot} encoder | in-band sentinel", ok,
                      f"sentinel {sval!r} is outside the range of `{t}`" if ok else
                      f"a string value equal to {sval!r} is written exactly like None and decodes to None",
                      ctx.prog.loc(n))
         if isinstance(n, ast.IfExp) and norm(n.orelse) == "self._none_str":
             n_sites += 1
-            yield Ob("C05.R2", ["C05"], f"{ser.qual} | time encoder | {norm(n, 70)}", True,
+            yield Ob("C05.R2", ["C05", "C04"], f"{ser.qual} | time encoder | in-band sentinel", True,
                      "isoformat text never equals the sentinel; a point in storage always has a time",
                      ctx.prog.loc(n), nontrivial=False)
         if isinstance(n, ast.BoolOp) and isinstance(n.op, ast.Or) and norm(n.values[-1]) == "self._none_str":
@@ -429,7 +446,7 @@ def in_band_sentinels(ctx):
             de = ctx.prog.func("Point._deserialize_from_list", "C05.R2")
             mapped_back = any(isinstance(x, ast.IfExp) and "_none_str" in norm(x.test) and "row[1]" in norm(x)
                               for x in walk_local(de.node))
-            yield Ob("C05.R2", ["C05"], f"{ser.qual} | measurement encoder | {norm(n, 70)}", mapped_back,
+            yield Ob("C05.R2", ["C05", "C04"], f"{ser.qual} | measurement encoder | in-band sentinel", mapped_back,
                      "decoder maps the sentinel back" if mapped_back else
                      f"the empty measurement \"\" is written as {sval!r} and read back as the string {sval!r}; a "
                      f"measurement named {sval!r} and \"\" collide", ctx.prog.loc(n))
@@ -437,7 +454,7 @@ def in_band_sentinels(ctx):
         raise AnalysisError("C05.R2", "sentinel encoders not found")
 
 
-@rule("C05.R3", ["C05"], min_instances=2, design="3.5")
+@rule("C05.R3", ["C05", "C04"], min_instances=2, design="3.5")
 def lossy_narrowing(ctx):
     """An int|float slot must not be encoded through float(): integers above 2**53 collapse. The decoder's int/float/None discrimination matches the encoder's alphabet."""
     ser = ctx.prog.func("Point._serialize_to_list", "C05.R3")
@@ -446,7 +463,7 @@ def lossy_narrowing(ctx):
         if isinstance(n, ast.Call) and norm(n.func) == "str" and n.args and isinstance(n.args[0], ast.Call) \
                 and norm(n.args[0].func) == "float":
             n_sites += 1
-            yield Ob("C05.R3", ["C05"], f"{ser.qual} | field value encoder | {norm(n)}", False,
+            yield Ob("C05.R3", ["C05", "C04"], f"{ser.qual} | field value encoder | float narrowing", False,
                      "every field value is narrowed to float64 before printing: ints with magnitude above 2**53 "
                      "come back as a different number (and every int comes back as float)", ctx.prog.loc(n))
     de = ctx.prog.func("Point._deserialize_from_list", "C05.R3")
@@ -470,14 +487,14 @@ def lossy_narrowing(ctx):
         if not tr or not any(any(isinstance(s_, ast.Assign) and const_value(s_.value) is None for s_ in h.body)
                              for h in tr[0].handlers):
             bad.append("a value float() cannot parse does not decode to None")
-    yield Ob("C05.R3", ["C05"], f"{de.qual} | numeric decoding alphabet", not bad,
+    yield Ob("C05.R3", ["C05", "C04"], f"{de.qual} | numeric decoding alphabet", not bad,
              "; ".join(bad) if bad else "digits -> int, float() -> float, anything else -> None", de.loc())
     if n_sites == 0:
-        yield Ob("C05.R3", ["C05"], f"{ser.qual} | field value encoder", True,
+        yield Ob("C05.R3", ["C05", "C04"], f"{ser.qual} | field value encoder", True,
                  "field values are not narrowed through float()", ser.loc())
 
 
-@rule("C05.R4", ["C05", "C08"], min_instances=5, design="3.5")
+@rule("C05.R4", ["C05", "C08", "C04"], min_instances=5, design="3.5")
 def lossless_encoders(ctx):
     """Every slot is written with a lossless, argument-free text encoder and read with its inverse (isoformat/fromisoformat, str, str(float)/float)."""
     ser = ctx.prog.func("Point._serialize_to_list", "C05.R4")
@@ -496,7 +513,7 @@ def lossless_encoders(ctx):
                        f"format the reader expects)")
         elif norm(c.func.value) not in ("self._time.replace(tzinfo=None)",):
             bad.append(f"isoformat is applied to `{norm(c.func.value, 50)}`, expected the tz-stripped stored time")
-    yield Ob("C05.R4", ["C05", "C08"], f"{ser.qual} | time encoder", not bad,
+    yield Ob("C05.R4", ["C05", "C08", "C04"], f"{ser.qual} | time encoder", not bad,
              "; ".join(bad) if bad else "self._time.replace(tzinfo=None).isoformat() (microseconds kept)", ser.loc())
     rd = [n for n in walk_local(de.node) if isinstance(n, ast.Call) and isinstance(n.func, ast.Attribute)
           and n.func.attr in ("fromisoformat", "strptime", "fromtimestamp", "utcfromtimestamp")]
@@ -505,7 +522,7 @@ def lossless_encoders(ctx):
         bad.append(f"time is read with {[norm(r.func) for r in rd]}, expected datetime.fromisoformat")
     elif [norm(a) for a in rd[0].args] != [f"{de.params()[1]}[0]"]:
         bad.append(f"time is read from `{[norm(a) for a in rd[0].args]}`, expected column 0")
-    yield Ob("C05.R4", ["C05", "C08"], f"{de.qual} | time decoder", not bad,
+    yield Ob("C05.R4", ["C05", "C08", "C04"], f"{de.qual} | time decoder", not bad,
              "; ".join(bad) if bad else "datetime.fromisoformat(row[0])", de.loc())
     # tag values / field values / keys: the generator expressions of the writer
     for kind in ("tag", "field"):
@@ -540,7 +557,7 @@ def lossless_encoders(ctx):
                     bad.append(f"{kind} value encoder `{norm(val_e, 60)}` is not `SENTINEL if v is None else <encoder>(v)`")
                 if ge.generators[0].ifs or len(ge.generators) != 1:
                     bad.append(f"some {kind} pairs are filtered out while writing")
-        yield Ob("C05.R4", ["C05"], f"{ser.qual} | {kind} pair encoder", not bad,
+        yield Ob("C05.R4", ["C05", "C04"], f"{ser.qual} | {kind} pair encoder", not bad,
                  "; ".join(bad[:2]) if bad else "prefix + key verbatim, lossless value text", ser.loc())
     # reader: tag value is the text itself (or None for the sentinel); field value is int()/float() of the text
     bad = []
@@ -563,5 +580,5 @@ def lossless_encoders(ctx):
         if isinstance(c, ast.Call) and norm(c.func) in ("int", "float", "round", "Decimal") and c.args:
             if norm(c.func) in ("round", "Decimal") or len(c.args) != 1 or c.keywords:
                 bad.append(f"field value decoder `{norm(c, 50)}` is not int(text)/float(text)")
-    yield Ob("C05.R4", ["C05"], f"{de.qual} | value decoders", not bad,
+    yield Ob("C05.R4", ["C05", "C04"], f"{de.qual} | value decoders", not bad,
              "; ".join(bad[:2]) if bad else "tag text verbatim (sentinel -> None); int(text) / float(text)", de.loc())
